@@ -293,6 +293,34 @@ func jsonRebuild(k *K, t *trie.Trie, what string) *trie.Trie {
 	}
 	holds = append(holds, heldJSON{direct, members, what})
 	k.stash["heldJSON"] = holds
+	// The same JSON document re-formatted the way tools and transfers do — indented with spaces or tabs, with LF,
+	// CRLF or lone CR between tokens, blanks around every colon and comma — is the same JSON form: all four JSON
+	// whitespace bytes may stand between any two tokens.
+	if calls%4 == 0 && len(b) < 20000 && longest <= 64 { // (indenting a deeply nested document grows with the square of the depth)
+		var ind bytes.Buffer
+		if json.Indent(&ind, b, pick(k.Rand(), []string{"", " ", "\t"}), pick(k.Rand(), []string{" ", "\t", "  "})) == nil {
+			eol := pick(k.Rand(), []string{"\n", "\r\n", "\r", "\n \r\t"})
+			txt := bytes.ReplaceAll(ind.Bytes(), []byte("\n"), []byte(eol))
+			txt = bytes.ReplaceAll(txt, []byte(":"), []byte(pick(k.Rand(), []string{":", " : ", "\r:\t"})))
+			txt = append(append([]byte(pick(k.Rand(), []string{"", " ", "\r\n"})), txt...), pick(k.Rand(), []string{"", "\n", "\r\n", " \t"})...)
+			t4 := trie.New()
+			var got []string
+			if err := json.Unmarshal(txt, t4); err != nil {
+				if !nestingLimit(err) {
+					k.Failf("json", "%s: Unmarshal of the re-formatted JSON %.200q failed: %.300v", what, txt, err)
+					return nil
+				}
+			} else {
+				t4.ForEach(func(x []byte) bool { got = append(got, string(x)); return true })
+				sort.Strings(got)
+				if fmt.Sprint(got) != fmt.Sprint(members) {
+					k.Failf("json", "%s: the re-formatted JSON %.200q rebuilds %.300q, the trie holds %.300q", what, txt, got, members)
+					return nil
+				}
+				k.Count("reformatted_json_rebuilt", 1)
+			}
+		}
+	}
 	t2 := trie.New()
 	switch (calls + int(k.Idx%3)) % 3 {
 	case 1: // observed while empty
